@@ -1,6 +1,7 @@
 import LyModel.XsdRe.Lemmas
 import LyModel.XsdRe.RewriteLemmas
 import LyModel.XsdRe.BlockLemmas
+import LyModel.XsdRe.DepthLemmas
 import LyModel.XsdRe.FuelLemmas
 import LyModel.XsdRe.Drv
 /-!
@@ -18,11 +19,15 @@ exactly when some prefix closes more unescaped brackets than it opened, and othe
 repaired loop (`Fixes.f25`, fixes/F25.diff).
 
 Part C: pass 2 (`chblocksStep`, one round of `lys_compile_pattern_chblocks_xmlschema2perl`) on the table
-`Generated.UBlocks` *as extracted from the source now*.  Full strength: `\p{IsX}` becomes the range the table gives for X.
-False of the code (F1: the row index is overwritten by the bracket-depth counter; F186: X is matched by prefix) — proved
-false with the witness `\p{IsGreek}`; what the code does instead is `block_subst_as_is`; the repaired step satisfies the
-full statement, and with F1 repaired the table index is always in range (it is not in the code as it is: witness
-`\\[a]\p{IsGreek}`, a crash).  The rows themselves are checked against the block table of the Recommendation.
+`Generated.UBlocks` *as extracted from the source now*.  Full strength: `\p{IsX}` becomes the range text the table gives for
+X, with its brackets outside a character class and without them inside one, where *inside a class* is the bracket depth of
+the escape tokens (the depth of pass 1).  False of the code as it was (F1: the row index is overwritten by the
+bracket-depth counter; F186: X is matched by prefix; F190: the depth loop of pass 2 looks only at the previous byte, `\\[`;
+F187: every row is copied in 19 bytes, `Specials` is longer) — each proved false with a witness; what the unrepaired code
+does instead is `block_subst_as_is`; the repaired step (all four repairs are in the source now) satisfies the full
+statement, the repaired depth loop is proved to compute the token depth, and with F1 repaired the table index is always
+in range (it was not: witness `\\[a]\p{IsGreek}`, a crash).  The rows themselves — all of them, `Specials` included — are
+checked against the block table of the Recommendation.
 -/
 namespace LyModel.Props.C18
 open LyModel LyModel.XsdRe LyModel.XsdRe.Regex
@@ -243,51 +248,77 @@ example : [97, 92, 36, 91, 94, 98, 93, 92, 91, 92, 94] = specEscape 0 (tokens [9
 def FirstAt (pre name post : Bytes) : Prop :=
   ∀ j, j < pre.length → needle.isPrefixOf ((pre ++ (needle ++ (name ++ bRBrace :: post))).drop j) = false
 
--- AUDIT: weaker than "full strength".  "Depth 0" / "inside a character class" is `depthOf pre`, i.e. the C code's OWN
--- pass-2 depth loop, which looks only at the previous byte: it takes the `[` of `\\[` (an escaped backslash followed by
--- an opening bracket) for an escaped bracket.  Pass 1 and the specs of part B use the token depth `balance (tokens pre)`.
--- Where the two differ the theorem endorses a wrong output: at `\\[a]\p{IsGreek}` the escape stands outside every class
--- (token depth 0), `depthOf` is -1, and the step with ALL repairs on drops the brackets: `\\[a]\x{0370}-\x{03FF}`
--- (`block_subst_correct_weak_for_escaped_backslash`, kernel-checked).  The witnesses below show that the theorem is not
--- vacuous.  Minimal repair of the statement: `balance (tokens pre) = 0` instead of `depthOf pre = 0`.  That statement is
--- FALSE of the code even with F1/F25/F186 repaired (`block_subst_tokdepth_fails`) — a residual defect of the pass-2
--- depth loop that no recorded finding covers (F1 only mentions this pattern as the crash witness) — and true under the
--- extra hypothesis `depthOf pre = balance (tokens pre)` (`block_subst_correct_tokdepth`).  DECISION NEEDED: record the
--- defect and make the token-depth statement the full-strength one (then this theorem becomes its `_partial`).
-/-- **Full strength, repaired step** (fixes/F1.diff + fixes/F186.diff): `\p{IsX}` is replaced by the range text of the row
-    named exactly X — with its brackets at depth 0, without them inside a character class — and an X that is not a row
-    name is rejected.  (Any table, any `URANGE_LEN`.) -/
-theorem block_subst_correct (fx : Fixes) (h1 : fx.f1 = true) (h186 : fx.f186 = true)
-    (tbl : List (Bytes × Bytes)) (ulen : Nat) (pre name post : Bytes)
+/-- every repair but F190: the pass-2 depth loop still looks at the previous byte only -/
+def fxNo190 : Fixes := { f1 := true, f25 := true, f186 := true, f187 := true }
+/-- every repair but F187: every row is still copied in the constant length `URANGE_LEN` -/
+def fxNo187 : Fixes := { f1 := true, f25 := true, f186 := true, f190 := true }
+
+/-- **The repaired pass-2 depth loop computes the token depth** (fixes/F190.diff): the loop with the `escaped` state —
+    a backslash escapes exactly the next byte — ends at the bracket balance of the escape tokens of the text before the
+    block escape, i.e. at the depth pass 1 (`escapeLoop`, part B) works with. -/
+theorem pass2_depth_is_token_depth (fx : Fixes) (h190 : fx.f190 = true) (pre : Bytes) :
+    depthWith fx pre = balance (tokens pre) :=
+  depthWith_repaired fx h190 pre
+
+/-- non-vacuity: `\\[a]` (escaped backslash, complete class): 0; `\\[a` (class still open): 1; `[\]` (escaped `]` in an open
+class): 1; `\[a` (escaped `[`): 0 -/
+example : depthWith Fixes.all [92, 92, 91, 97, 93] = 0 ∧ depthWith Fixes.all [92, 92, 91, 97] = 1 ∧
+    depthWith Fixes.all [91, 92, 93] = 1 ∧ depthWith Fixes.all [92, 91, 97] = 0 := by decide
+example : balance (tokens [92, 92, 91, 97, 93]) = 0 := (pass2_depth_is_token_depth Fixes.all rfl _).symm.trans (by decide)
+
+/-- **False of the loop as it was** (F190): it looks only at the previous byte, so in `\\[` — an escaped backslash, then an
+    opening bracket — the bracket is taken for an escaped one: depth 0 instead of 1 (and -1 instead of 0 after `\\[a]`). -/
+theorem pass2_depth_is_token_depth_fails : ¬ ∀ pre : Bytes, depthWith Fixes.none pre = balance (tokens pre) := by
+  intro h
+  have := h [92, 92, 91]
+  revert this
+  decide
+
+/-- **The true part for the loop as it was** (the `_partial`): on a text without an *escaped backslash* (no token `\\`) the
+    previous-byte loop computes the token depth as well — every backslash byte then starts an escape token, so "the byte
+    before is a backslash" does mean "escaped".  Hence either loop, whatever the state of the repair. -/
+theorem pass2_depth_is_token_depth_partial (fx : Fixes) (pre : Bytes) (hno : ∀ t ∈ tokens pre, t ≠ .esc bBackslash) :
+    depthWith fx pre = balance (tokens pre) := by
+  by_cases h : fx.f190 = true
+  · exact depthWith_repaired fx h pre
+  · rw [depthWith_as_was fx (by simpa using h), depthOf_eq_balance pre hno]
+
+/-- non-vacuity: `\[a[\]\^b` (escaped `[`, a class left open that holds an escaped `]`, an escaped `^`) has no escaped backslash; the
+old loop arrives at the token depth 1 -/
+example : (∀ t ∈ tokens [92, 91, 97, 91, 92, 93, 92, 94, 98], t ≠ .esc bBackslash) ∧ depthWith Fixes.none [92, 91, 97, 91, 92, 93, 92, 94, 98] = 1 := by decide
+example : balance (tokens [92, 91, 97, 91, 92, 93, 92, 94, 98]) = 1 :=
+  (pass2_depth_is_token_depth_partial Fixes.none _ (by decide)).symm.trans (by decide)
+
+/-- **Full strength, repaired step** (fixes/F1.diff + F186.diff + F190.diff + F187.diff): `\p{IsX}` is replaced by the range
+    text of the row named exactly X — the whole text, with its brackets, when the escape stands outside every character
+    class, the text without its first and last byte inside a class, *inside a class* meaning that the unescaped brackets of
+    the escape tokens before it do not balance (the depth of pass 1, which lets through only texts where no prefix closes
+    more than it opened: more opened than closed) — and an X that is not a row name is rejected.
+    (Any table, any `URANGE_LEN`.) -/
+theorem block_subst_correct (fx : Fixes) (h1 : fx.f1 = true) (h186 : fx.f186 = true) (h190 : fx.f190 = true)
+    (h187 : fx.f187 = true) (tbl : List (Bytes × Bytes)) (ulen : Nat) (pre name post : Bytes)
     (hfirst : FirstAt pre name post) (hname : bRBrace ∉ name) :
     (∀ i, findBlockExact tbl name = some i →
       (tbl.getD i ([], [])).1 = name ∧
       chblocksStep fx tbl ulen (pre ++ (needle ++ (name ++ bRBrace :: post))) =
-        .next (pre ++ (if depthOf pre = 0 then (tbl.getD i ([], [])).2.take ulen
-                       else ((tbl.getD i ([], [])).2.drop 1).take (ulen - 2)) ++ post)) ∧
+        .next (pre ++ (if balance (tokens pre) = 0 then (tbl.getD i ([], [])).2
+                       else ((tbl.getD i ([], [])).2.drop 1).dropLast) ++ post)) ∧
     (findBlockExact tbl name = Option.none →
       chblocksStep fx tbl ulen (pre ++ (needle ++ (name ++ bRBrace :: post))) = .fail .unknownBlock) := by
-  have hstep := chblocksStep_at fx tbl ulen pre name post hfirst hname
-  constructor
-  · intro i hi
-    have hlt := findIdx?_lt _ _ _ hi
-    have hsat := findIdx?_sat _ _ _ hi ([], [])
-    refine ⟨by simpa using hsat, ?_⟩
-    rw [hstep]
-    simp only [h186, if_true, hi, h1]
-    have : ¬ ((i : Int) < 0 ∨ (i : Int) ≥ (tbl.length : Int)) := by omega
-    simp only [this, if_false, Int.toNat_natCast]
-    by_cases hd : depthOf pre = 0 <;> simp [hd]
-  · intro hn
-    rw [hstep]
-    simp only [h186, if_true, hn]
+  have h := chblocksStep_found fx h1 h186 tbl ulen pre name post hfirst hname
+  rw [depthWith_repaired fx h190, h187] at h
+  refine ⟨fun i hi => ?_, h.2⟩
+  have hc := copyLen_row ulen (tbl.getD i ([], [])).2
+  have hi' := h.1 i hi
+  rw [hc.1, hc.2] at hi'
+  exact hi'
 
 /-- non-vacuity (audit): the theorem on the table of the source at `a\p{IsGreek}+` (depth 0: row 7 with its brackets) -/
 example : (ublocks.getD 7 ([], [])).1 = [71, 114, 101, 101, 107] ∧
     chblocksStep Fixes.all ublocks 19 ([97] ++ (needle ++ ([71, 114, 101, 101, 107] ++ bRBrace :: [43]))) =
-      .next ([97] ++ (if depthOf [97] = 0 then (ublocks.getD 7 ([], [])).2.take 19
-                      else ((ublocks.getD 7 ([], [])).2.drop 1).take (19 - 2)) ++ [43]) :=
-  (block_subst_correct Fixes.all rfl rfl ublocks 19 [97] [71, 114, 101, 101, 107] [43] (by unfold FirstAt; decide) (by decide)).1 7 (by decide)
+      .next ([97] ++ (if balance (tokens [97]) = 0 then (ublocks.getD 7 ([], [])).2
+                      else ((ublocks.getD 7 ([], [])).2.drop 1).dropLast) ++ [43]) :=
+  (block_subst_correct Fixes.all rfl rfl rfl rfl ublocks 19 [97] [71, 114, 101, 101, 107] [43] (by unfold FirstAt; decide) (by decide)).1 7 (by decide)
 /-- … which is `a[\x{0370}-\x{03FF}]+` -/
 example : chblocksStep Fixes.all ublocks 19 ([97] ++ (needle ++ ([71, 114, 101, 101, 107] ++ bRBrace :: [43]))) =
     .next [97, 91, 92, 120, 123, 48, 51, 55, 48, 125, 45, 92, 120, 123, 48, 51, 70, 70, 125, 93, 43] := by decide
@@ -295,70 +326,183 @@ example : chblocksStep Fixes.all ublocks 19 ([97] ++ (needle ++ ([71, 114, 101, 
 `[a\p{IsGreekExtended}]` ↦ `[a\x{1F00}-\x{1FFF}]` (row 38 without its brackets, not row 7) -/
 example : chblocksStep Fixes.all ublocks 19 ([91, 97] ++ (needle ++ ([71, 114, 101, 101, 107, 69, 120, 116, 101, 110, 100, 101, 100] ++ bRBrace :: [93]))) =
     .next [91, 97, 92, 120, 123, 49, 70, 48, 48, 125, 45, 92, 120, 123, 49, 70, 70, 70, 125, 93] :=
-  ((block_subst_correct Fixes.all rfl rfl ublocks 19 [91, 97] [71, 114, 101, 101, 107, 69, 120, 116, 101, 110, 100, 101, 100] [93] (by unfold FirstAt; decide) (by decide)).1 38
+  ((block_subst_correct Fixes.all rfl rfl rfl rfl ublocks 19 [91, 97] [71, 114, 101, 101, 107, 69, 120, 116, 101, 110, 100, 101, 100] [93] (by unfold FirstAt; decide) (by decide)).1 38
     (by decide)).2
 /-- non-vacuity (audit): the second conjunct — `\p{IsGrek}` is no row name -/
 example : chblocksStep Fixes.all ublocks 19 ([97] ++ (needle ++ ([71, 114, 101, 107] ++ bRBrace :: [43]))) = .fail .unknownBlock :=
-  (block_subst_correct Fixes.all rfl rfl ublocks 19 [97] [71, 114, 101, 107] [43] (by unfold FirstAt; decide) (by decide)).2 (by decide)
+  (block_subst_correct Fixes.all rfl rfl rfl rfl ublocks 19 [97] [71, 114, 101, 107] [43] (by unfold FirstAt; decide) (by decide)).2 (by decide)
+/-- non-vacuity (F190): `\\[a]\p{IsGreek}` — an escaped backslash and the complete class `[a]` before the escape, token depth 0:
+the range keeps its brackets, `\\[a][\x{0370}-\x{03FF}]` (backslash, `a`, a Greek letter); and `[\\\p{IsGreek}]` — an escaped
+backslash inside an open class, depth 1: without brackets, `[\\\x{0370}-\x{03FF}]` -/
+example : chblocksStep Fixes.all ublocks 19 ([92, 92, 91, 97, 93] ++ (needle ++ ([71, 114, 101, 101, 107] ++ bRBrace :: []))) =
+    .next [92, 92, 91, 97, 93, 91, 92, 120, 123, 48, 51, 55, 48, 125, 45, 92, 120, 123, 48, 51, 70, 70, 125, 93] :=
+  ((block_subst_correct Fixes.all rfl rfl rfl rfl ublocks 19 [92, 92, 91, 97, 93] [71, 114, 101, 101, 107] [] (by unfold FirstAt; decide) (by decide)).1 7
+    (by decide)).2
+example : chblocksStep Fixes.all ublocks 19 ([91, 92, 92] ++ (needle ++ ([71, 114, 101, 101, 107] ++ bRBrace :: [93]))) =
+    .next [91, 92, 92, 92, 120, 123, 48, 51, 55, 48, 125, 45, 92, 120, 123, 48, 51, 70, 70, 125, 93] :=
+  ((block_subst_correct Fixes.all rfl rfl rfl rfl ublocks 19 [91, 92, 92] [71, 114, 101, 101, 107] [93] (by unfold FirstAt; decide) (by decide)).1 7
+    (by decide)).2
+/-- … and through the whole rewrite (both passes, `URANGE_LEN` of the source now) -/
+example : rewriteWith Fixes.all [92, 92, 91, 97, 93, 92, 112, 123, 73, 115, 71, 114, 101, 101, 107, 125] = .ok [92, 92, 91, 97, 93, 91, 92, 120, 123, 48, 51, 55, 48, 125, 45, 92, 120, 123, 48, 51, 70, 70, 125, 93] := by decide
+/-- non-vacuity (F187): the `Specials` block (row 83, two ranges, longer than every other row) outside and inside a class:
+`\p{IsSpecials}` ↦ `[\x{FEFF}\x{FFF0}-\x{FFFD}]`, `[a\p{IsSpecials}]` ↦ `[a\x{FEFF}\x{FFF0}-\x{FFFD}]` -/
+example : chblocksStep Fixes.all ublocks 19 ([] ++ (needle ++ ([83, 112, 101, 99, 105, 97, 108, 115] ++ bRBrace :: []))) =
+    .next [91, 92, 120, 123, 70, 69, 70, 70, 125, 92, 120, 123, 70, 70, 70, 48, 125, 45, 92, 120, 123, 70, 70, 70, 68, 125, 93] :=
+  ((block_subst_correct Fixes.all rfl rfl rfl rfl ublocks 19 [] [83, 112, 101, 99, 105, 97, 108, 115] [] (by unfold FirstAt; decide) (by decide)).1 83
+    (by decide)).2
+example : chblocksStep Fixes.all ublocks 19 ([91, 97] ++ (needle ++ ([83, 112, 101, 99, 105, 97, 108, 115] ++ bRBrace :: [93]))) =
+    .next [91, 97, 92, 120, 123, 70, 69, 70, 70, 125, 92, 120, 123, 70, 70, 70, 48, 125, 45, 92, 120, 123, 70, 70, 70, 68, 125, 93] :=
+  ((block_subst_correct Fixes.all rfl rfl rfl rfl ublocks 19 [91, 97] [83, 112, 101, 99, 105, 97, 108, 115] [93] (by unfold FirstAt; decide) (by decide)).1 83
+    (by decide)).2
+example : rewriteWith Fixes.all [91, 94, 92, 112, 123, 73, 115, 83, 112, 101, 99, 105, 97, 108, 115, 125, 93, 92, 112, 123, 73, 115, 83, 112, 101, 99, 105, 97, 108, 115, 125] =
+    .ok [91, 94, 92, 120, 123, 70, 69, 70, 70, 125, 92, 120, 123, 70, 70, 70, 48, 125, 45, 92, 120, 123, 70, 70, 70, 68, 125, 93, 91, 92, 120, 123, 70, 69, 70, 70, 125, 92, 120, 123, 70, 70, 70, 48, 125, 45, 92, 120, 123, 70, 70, 70, 68, 125, 93] := by decide
 
-/-- **The depth of `block_subst_correct` is the code's, not the pattern's (audit).** `\\[a]\p{IsGreek}`: the text before the
+-- AUDIT (resolved): until F190 was recorded and repaired, `block_subst_correct` was stated with `depthOf pre`, the C code's
+-- OWN pass-2 depth loop, which looks only at the previous byte and takes the `[` of `\\[` (an escaped backslash followed by
+-- an opening bracket) for an escaped bracket; where that differs from the token depth `balance (tokens pre)` of pass 1 the
+-- theorem endorsed a wrong output (`\\[a]\p{IsGreek}` ↦ `\\[a]\x{0370}-\x{03FF}`).  The defect is finding F190, the source
+-- has the escape-aware loop (fixes/F190.diff), the model has the switch `Fixes.f190`, `pass2_depth_is_token_depth` proves that
+-- the repaired loop computes the token depth, and `block_subst_correct` is now the token-depth statement.  The statement
+-- with the code's own depth is kept as `block_subst_correct_partial` for the variant without the repair, with the witnesses
+-- that it is strictly weaker (`block_subst_correct_weak_for_escaped_backslash`, `block_subst_tokdepth_fails`) and the
+-- condition under which it coincides (`block_subst_correct_tokdepth`).
+
+/-- **What holds without the F190 / F187 repairs** (the `_partial` of `block_subst_correct`; F1 and F186 repaired): the row
+    named exactly X is used, but *depth 0* / *inside a class* is decided by the depth loop of the code as it was
+    (`depthOf pre`: a bracket counts unless the byte before it is a backslash), and the text is copied in the length the
+    code copies (`copyLen`: `ulen` whatever the row while F187 is unrepaired). -/
+theorem block_subst_correct_partial (fx : Fixes) (h1 : fx.f1 = true) (h186 : fx.f186 = true) (h190 : fx.f190 = false)
+    (tbl : List (Bytes × Bytes)) (ulen : Nat) (pre name post : Bytes)
+    (hfirst : FirstAt pre name post) (hname : bRBrace ∉ name) :
+    (∀ i, findBlockExact tbl name = some i →
+      (tbl.getD i ([], [])).1 = name ∧
+      chblocksStep fx tbl ulen (pre ++ (needle ++ (name ++ bRBrace :: post))) =
+        .next (pre ++ (if depthOf pre = 0 then (tbl.getD i ([], [])).2.take (copyLen fx.f187 ulen (tbl.getD i ([], [])).2)
+                       else ((tbl.getD i ([], [])).2.drop 1).take (copyLen fx.f187 ulen (tbl.getD i ([], [])).2 - 2)) ++ post)) ∧
+    (findBlockExact tbl name = Option.none →
+      chblocksStep fx tbl ulen (pre ++ (needle ++ (name ++ bRBrace :: post))) = .fail .unknownBlock) := by
+  have h := chblocksStep_found fx h1 h186 tbl ulen pre name post hfirst hname
+  rw [depthWith_as_was fx h190] at h
+  exact h
+
+/-- non-vacuity: the code with F1, F25, F186 repaired only (`URANGE_LEN` 19) at `[a\p{IsGreek}]`: row 7 without its brackets -/
+example : chblocksStep { f1 := true, f25 := true, f186 := true } ublocks 19 ([91, 97] ++ (needle ++ ([71, 114, 101, 101, 107] ++ bRBrace :: [93]))) =
+    .next [91, 97, 92, 120, 123, 48, 51, 55, 48, 125, 45, 92, 120, 123, 48, 51, 70, 70, 125, 93] :=
+  ((block_subst_correct_partial { f1 := true, f25 := true, f186 := true } rfl rfl rfl ublocks 19 [91, 97] [71, 114, 101, 101, 107] [93]
+    (by unfold FirstAt; decide) (by decide)).1 7 (by decide)).2
+
+/-- **The depth of `block_subst_correct_partial` is the old code's, not the pattern's.** `\\[a]\p{IsGreek}`: the text before the
 escape is an escaped backslash and the complete class `[a]` — token depth 0, the escape stands outside every class —
-but the pass-2 depth loop, which only looks at the previous byte, arrives at -1, and the step WITH ALL REPAIRS drops
-the brackets of the range: `\\[a]\x{0370}-\x{03FF}`. -/
+but the pass-2 depth loop that only looks at the previous byte arrives at -1, and the step with every repair BUT F190
+drops the brackets of the range: `\\[a]\x{0370}-\x{03FF}`. -/
 theorem block_subst_correct_weak_for_escaped_backslash :
     balance (tokens [92, 92, 91, 97, 93]) = 0 ∧ WellBracketed [92, 92, 91, 97, 93] ∧ depthOf [92, 92, 91, 97, 93] = -1 ∧
     FirstAt [92, 92, 91, 97, 93] [71, 114, 101, 101, 107] [] ∧
-    chblocksStep Fixes.all ublocks 19 ([92, 92, 91, 97, 93] ++ (needle ++ ([71, 114, 101, 101, 107] ++ bRBrace :: []))) =
+    chblocksStep fxNo190 ublocks 19 ([92, 92, 91, 97, 93] ++ (needle ++ ([71, 114, 101, 101, 107] ++ bRBrace :: []))) =
       .next ([92, 92, 91, 97, 93] ++ [92, 120, 123, 48, 51, 55, 48, 125, 45, 92, 120, 123, 48, 51, 70, 70, 125]) := by
   refine ⟨by decide, ?_, by decide, by unfold FirstAt; decide, by decide⟩
   exact Classical.byContradiction fun h =>
     absurd ((rewrite_rejects_stray_bracket Fixes.none [92, 92, 91, 97, 93]).1.mpr h) (by decide)
 
-/-- **The repaired full-strength statement (token depth) is false of the code with F1, F25 and F186 repaired (audit).** -/
+/-- **The full-strength statement is false of the code without the F190 repair** (every other repair on). -/
 theorem block_subst_tokdepth_fails :
     ¬ ∀ (pre name post : Bytes) (i : Nat), FirstAt pre name post → bRBrace ∉ name → findBlockExact ublocks name = some i →
-      chblocksStep Fixes.all ublocks Generated.UBlocks.URANGE_LEN (pre ++ (needle ++ (name ++ bRBrace :: post))) =
-        .next (pre ++ (if balance (tokens pre) = 0 then (ublocks.getD i ([], [])).2.take Generated.UBlocks.URANGE_LEN
-                       else ((ublocks.getD i ([], [])).2.drop 1).take (Generated.UBlocks.URANGE_LEN - 2)) ++ post) := by
+      chblocksStep fxNo190 ublocks 19 (pre ++ (needle ++ (name ++ bRBrace :: post))) =
+        .next (pre ++ (if balance (tokens pre) = 0 then (ublocks.getD i ([], [])).2
+                       else ((ublocks.getD i ([], [])).2.drop 1).dropLast) ++ post) := by
   intro h
   have := h [92, 92, 91, 97, 93] [71, 114, 101, 101, 107] [] 7 block_subst_correct_weak_for_escaped_backslash.2.2.2.1 (by decide) (by decide)
   revert this
   decide
 
-/-- **`block_subst_correct` with the depth of the pattern (audit)**: the statement with the token depth of pass 1 holds
-of the repaired step wherever the pass-2 depth loop agrees with it (no `\\[`, `\\]` before the escape, for instance). -/
-theorem block_subst_correct_tokdepth (fx : Fixes) (h1 : fx.f1 = true) (h186 : fx.f186 = true)
+/-- **`block_subst_correct_partial` with the depth of the pattern**: the statement with the token depth of pass 1 holds
+of the step without the F190 repair wherever the old depth loop agrees with it — in particular when no escaped backslash
+stands before the escape (`pass2_depth_is_token_depth_partial`). -/
+theorem block_subst_correct_tokdepth (fx : Fixes) (h1 : fx.f1 = true) (h186 : fx.f186 = true) (h190 : fx.f190 = false)
     (tbl : List (Bytes × Bytes)) (ulen : Nat) (pre name post : Bytes)
     (hfirst : FirstAt pre name post) (hname : bRBrace ∉ name) (hdepth : depthOf pre = balance (tokens pre)) :
     (∀ i, findBlockExact tbl name = some i →
       (tbl.getD i ([], [])).1 = name ∧
       chblocksStep fx tbl ulen (pre ++ (needle ++ (name ++ bRBrace :: post))) =
-        .next (pre ++ (if balance (tokens pre) = 0 then (tbl.getD i ([], [])).2.take ulen
-                       else ((tbl.getD i ([], [])).2.drop 1).take (ulen - 2)) ++ post)) ∧
+        .next (pre ++ (if balance (tokens pre) = 0 then (tbl.getD i ([], [])).2.take (copyLen fx.f187 ulen (tbl.getD i ([], [])).2)
+                       else ((tbl.getD i ([], [])).2.drop 1).take (copyLen fx.f187 ulen (tbl.getD i ([], [])).2 - 2)) ++ post)) ∧
     (findBlockExact tbl name = Option.none →
       chblocksStep fx tbl ulen (pre ++ (needle ++ (name ++ bRBrace :: post))) = .fail .unknownBlock) := by
   rw [← hdepth]
-  exact block_subst_correct fx h1 h186 tbl ulen pre name post hfirst hname
+  exact block_subst_correct_partial fx h1 h186 h190 tbl ulen pre name post hfirst hname
 
 /-- non-vacuity (audit): the depth hypothesis holds at `[\]a` (an escaped `]` inside an open class: both depths are 1) -/
 example : depthOf [91, 92, 93, 97] = balance (tokens [91, 92, 93, 97]) ∧ balance (tokens [91, 92, 93, 97]) = 1 ∧
     FirstAt [91, 92, 93, 97] [71, 114, 101, 101, 107] [93] := ⟨by decide, by decide, by unfold FirstAt; decide⟩
+/-- … obtained from the syntactic condition, and the theorem applied: `[\]a\p{IsGreek}]` ↦ `[\]a\x{0370}-\x{03FF}]` by the code
+with F1, F25, F186 repaired only (`URANGE_LEN` 19) -/
+example : chblocksStep { f1 := true, f25 := true, f186 := true } ublocks 19 ([91, 92, 93, 97] ++ (needle ++ ([71, 114, 101, 101, 107] ++ bRBrace :: [93]))) =
+    .next [91, 92, 93, 97, 92, 120, 123, 48, 51, 55, 48, 125, 45, 92, 120, 123, 48, 51, 70, 70, 125, 93] :=
+  ((block_subst_correct_tokdepth { f1 := true, f25 := true, f186 := true } rfl rfl rfl ublocks 19 [91, 92, 93, 97] [71, 114, 101, 101, 107] [93]
+    (by unfold FirstAt; decide) (by decide)
+    ((pass2_depth_is_token_depth_partial { f1 := true, f25 := true, f186 := true } [91, 92, 93, 97] (by decide)))).1 7 (by decide)).2
 
-/-- **The full-strength statement is false of the code as it is** (F1): at depth 0 `\p{IsGreek}` becomes the *first* row
-    (BasicLatin), not the Greek row. -/
+/-- the `Specials` row of `ublock2urange` as it was before fixes/F187.diff: `[\x{FEFF}|\x{FFF0}-\x{FFFD}]`, 28 bytes -/
+def specialsRowWas : Bytes × Bytes := ([83, 112, 101, 99, 105, 97, 108, 115], [91, 92, 120, 123, 70, 69, 70, 70, 125, 124, 92, 120, 123, 70, 70, 70, 48, 125, 45, 92, 120, 123, 70, 70, 70, 68, 125, 93])
+
+/-- **The full-strength statement is false of the code without the F187 repair** (every other repair on): with the row as
+    it was and `URANGE_LEN` 19, `\p{IsSpecials}` becomes the cut text `[\x{FEFF}|\x{FFF0}-` (an unterminated class: the
+    pattern is refused), and inside a class `\x{FEFF}|\x{FFF0}` (the range is lost and `|` is a member). -/
+theorem block_subst_row_length_fails :
+    (¬ ∀ (tbl : List (Bytes × Bytes)) (ulen : Nat) (pre name post : Bytes) (i : Nat), FirstAt pre name post → bRBrace ∉ name →
+      findBlockExact tbl name = some i →
+      chblocksStep fxNo187 tbl ulen (pre ++ (needle ++ (name ++ bRBrace :: post))) =
+        .next (pre ++ (if balance (tokens pre) = 0 then (tbl.getD i ([], [])).2
+                       else ((tbl.getD i ([], [])).2.drop 1).dropLast) ++ post)) ∧
+    chblocksStep fxNo187 [specialsRowWas] 19 ([] ++ (needle ++ ([83, 112, 101, 99, 105, 97, 108, 115] ++ bRBrace :: []))) =
+      .next [91, 92, 120, 123, 70, 69, 70, 70, 125, 124, 92, 120, 123, 70, 70, 70, 48, 125, 45] ∧
+    chblocksStep fxNo187 [specialsRowWas] 19 ([91] ++ (needle ++ ([83, 112, 101, 99, 105, 97, 108, 115] ++ bRBrace :: [93]))) =
+      .next [91, 92, 120, 123, 70, 69, 70, 70, 125, 124, 92, 120, 123, 70, 70, 70, 48, 125, 93] := by
+  refine ⟨fun h => ?_, by decide, by decide⟩
+  have := h [specialsRowWas] 19 [] [83, 112, 101, 99, 105, 97, 108, 115] [] 0 (fun j hj => by simp at hj) (by decide) (by decide)
+  revert this
+  decide
+
+/-- **What holds without the F187 repair** (the `_partial` for the copy length): the constant length is right for every
+    row that happens to be `ulen` bytes long (all rows of the source but `Specials`). -/
+theorem block_subst_row_length_partial (fx : Fixes) (h1 : fx.f1 = true) (h186 : fx.f186 = true) (h190 : fx.f190 = true)
+    (h187 : fx.f187 = false) (tbl : List (Bytes × Bytes)) (ulen : Nat) (pre name post : Bytes)
+    (hfirst : FirstAt pre name post) (hname : bRBrace ∉ name) (i : Nat) (hi : findBlockExact tbl name = some i)
+    (hlen : (tbl.getD i ([], [])).2.length = ulen) :
+    chblocksStep fx tbl ulen (pre ++ (needle ++ (name ++ bRBrace :: post))) =
+      .next (pre ++ (if balance (tokens pre) = 0 then (tbl.getD i ([], [])).2
+                     else ((tbl.getD i ([], [])).2.drop 1).dropLast) ++ post) := by
+  have h := ((chblocksStep_found fx h1 h186 tbl ulen pre name post hfirst hname).1 i hi).2
+  rw [depthWith_repaired fx h190, h187] at h
+  have hc := copyLen_row ulen (tbl.getD i ([], [])).2
+  have he : copyLen false ulen (tbl.getD i ([], [])).2 = copyLen true ulen (tbl.getD i ([], [])).2 := by
+    simp only [copyLen, Bool.false_eq_true, if_false, if_true]
+    exact hlen.symm
+  rw [he, hc.1, hc.2] at h
+  exact h
+
+/-- non-vacuity: the Greek row is 19 bytes; `\\[a]\p{IsGreek}` with every repair but F187 and `URANGE_LEN` 19 -/
+example : chblocksStep fxNo187 ublocks 19 ([92, 92, 91, 97, 93] ++ (needle ++ ([71, 114, 101, 101, 107] ++ bRBrace :: []))) =
+    .next [92, 92, 91, 97, 93, 91, 92, 120, 123, 48, 51, 55, 48, 125, 45, 92, 120, 123, 48, 51, 70, 70, 125, 93] :=
+  block_subst_row_length_partial fxNo187 rfl rfl rfl rfl ublocks 19 [92, 92, 91, 97, 93] [71, 114, 101, 101, 107] [] (by unfold FirstAt; decide) (by decide) 7
+    (by decide) (by decide)
+
+/-- **Even the partial statement is false of the code as it was** (F1; `URANGE_LEN` was 19): at depth 0 `\p{IsGreek}` becomes
+    the *first* row (BasicLatin), not the Greek row. -/
 theorem block_subst_correct_fails :
     ¬ ∀ (pre name post : Bytes) (i : Nat), FirstAt pre name post → bRBrace ∉ name → findBlockExact ublocks name = some i →
-      chblocksStep Fixes.none ublocks Generated.UBlocks.URANGE_LEN (pre ++ (needle ++ (name ++ bRBrace :: post))) =
-        .next (pre ++ (if depthOf pre = 0 then (ublocks.getD i ([], [])).2.take Generated.UBlocks.URANGE_LEN
-                       else ((ublocks.getD i ([], [])).2.drop 1).take (Generated.UBlocks.URANGE_LEN - 2)) ++ post) := by
+      chblocksStep Fixes.none ublocks 19 (pre ++ (needle ++ (name ++ bRBrace :: post))) =
+        .next (pre ++ (if depthOf pre = 0 then (ublocks.getD i ([], [])).2.take 19
+                       else ((ublocks.getD i ([], [])).2.drop 1).take (19 - 2)) ++ post) := by
   intro h
   have := h [] [71, 114, 101, 101, 107] [] 7 (fun j hj => by simp at hj) (by decide) (by decide)
   revert this
   decide
 
-/-- **What the code does instead** (the `_partial` of `block_subst_correct`): the block only has to *start with* a row name
-    (F186); the row that is used is selected by the bracket depth of the text before the escape, whatever the name
-    (F1) — the first row at depth 0 — and a depth outside the table is a read outside `ublock2urange` (crash). -/
+/-- **What the code as it was does instead** (no repair at all): the block only has to *start with* a row name (F186); the
+    row that is used is selected by the bracket depth of the text before the escape — the depth of the previous-byte loop
+    (F190) — whatever the name (F1), the first row at depth 0, and is copied in the constant length (F187); a depth outside
+    the table is a read outside `ublock2urange` (crash). -/
 theorem block_subst_as_is (tbl : List (Bytes × Bytes)) (ulen : Nat) (pre name post : Bytes)
     (hfirst : FirstAt pre name post) (hname : bRBrace ∉ name) :
     chblocksStep Fixes.none tbl ulen (pre ++ (needle ++ (name ++ bRBrace :: post))) =
@@ -367,7 +511,7 @@ theorem block_subst_as_is (tbl : List (Bytes × Bytes)) (ulen : Nat) (pre name p
       else if depthOf pre = 0 then .next (pre ++ (tbl.getD 0 ([], [])).2.take ulen ++ post)
       else .next (pre ++ ((tbl.getD (depthOf pre).toNat ([], [])).2.drop 1).take (ulen - 2) ++ post) := by
   rw [chblocksStep_at Fixes.none tbl ulen pre name post hfirst hname]
-  simp only [Fixes.none, Bool.false_eq_true, if_false]
+  simp only [Fixes.none, depthWith, copyLen, Bool.false_eq_true, if_false]
   cases findBlock tbl (name ++ bRBrace :: post) with
   | none => simp
   | some found =>
@@ -407,15 +551,15 @@ theorem block_subst_index_in_table (fx : Fixes) (h1 : fx.f1 = true) (p : Bytes) 
     intro h; cases h
   · exact chblocksLoop_no_crash fx h1 _ _ _ _
 
-/-- non-vacuity (audit): `fx.f1 = true` is met by `{ f1 := true }`; on the crash witness `\\[a]\p{IsGreek}` of
-`block_subst_index_in_table_fails` the rewrite then returns a text -/
-example : rewriteWith { f1 := true } [92, 92, 91, 97, 93, 92, 112, 123, 73, 115, 71, 114, 101, 101, 107, 125] ≠ .error .crash :=
-  block_subst_index_in_table { f1 := true } rfl _
-example : rewriteWith { f1 := true } [92, 92, 91, 97, 93, 92, 112, 123, 73, 115, 71, 114, 101, 101, 107, 125] =
+/-- non-vacuity (audit): `fx.f1 = true` is met by `{ f1 := true, f187 := true }`; on the crash witness `\\[a]\p{IsGreek}` of
+`block_subst_index_in_table_fails` the rewrite then returns a text (the one of F190: no brackets) -/
+example : rewriteWith { f1 := true, f187 := true } [92, 92, 91, 97, 93, 92, 112, 123, 73, 115, 71, 114, 101, 101, 107, 125] ≠ .error .crash :=
+  block_subst_index_in_table { f1 := true, f187 := true } rfl _
+example : rewriteWith { f1 := true, f187 := true } [92, 92, 91, 97, 93, 92, 112, 123, 73, 115, 71, 114, 101, 101, 107, 125] =
     .ok [92, 92, 91, 97, 93, 92, 120, 123, 48, 51, 55, 48, 125, 45, 92, 120, 123, 48, 51, 70, 70, 125] := by decide
 
-/-- **False of the code as it is** (F1): `\\[a]\p{IsGreek}` — an escaped backslash, then a class.  Pass 2 counts the `[` as
-    escaped (it only looks at the previous byte) and the `]` not: the counter wraps below zero and is used as the row. -/
+/-- **False of the code as it was** (F1 with F190): `\\[a]\p{IsGreek}` — an escaped backslash, then a class.  Pass 2 counts the
+    `[` as escaped (it only looks at the previous byte) and the `]` not: the counter wraps below zero and is used as the row. -/
 theorem block_subst_index_in_table_fails : ¬ ∀ p : Bytes, rewrite p ≠ .error .crash := by
   intro h
   exact h [92, 92, 91, 97, 93, 92, 112, 123, 73, 115, 71, 114, 101, 101, 107, 125] (by decide)
@@ -436,33 +580,56 @@ def hex4 : Bytes → Option Nat
     pure (((a * 16 + b) * 16 + c) * 16 + d)
   | _ => Option.none
 
-/-- `[\x{HHHH}-\x{HHHH}]` ↦ (lo, hi) -/
-def parseRow : Bytes → Option (Nat × Nat)
-  | [91, 92, 120, 123, a, b, c, d, 125, 45, 92, 120, 123, e, f, g, h, 125, 93] => do
-    let lo ← hex4 [a, b, c, d]
-    let hi ← hex4 [e, f, g, h]
-    pure (lo, hi)
+/-- `\x{HHHH}` ↦ (code point, rest) -/
+def parseCp : Bytes → Option (Nat × Bytes)
+  | 92 :: 120 :: 123 :: a :: b :: c :: d :: 125 :: r => (hex4 [a, b, c, d]).map fun v => (v, r)
+  | _ => Option.none
+
+/-- the members of a class body: `\x{LO}-\x{HI}` ↦ (lo, hi), a single `\x{CP}` ↦ (cp, cp); nothing else is accepted -/
+def parseItems : Nat → Bytes → Option (List (Nat × Nat))
+  | _, [] => some []
+  | 0, _ :: _ => Option.none
+  | f + 1, t =>
+    match parseCp t with
+    | Option.none => Option.none
+    | some (lo, 45 :: r) =>
+      match parseCp r with
+      | Option.none => Option.none
+      | some (hi, r') => (parseItems f r').map ((lo, hi) :: ·)
+    | some (lo, r) => (parseItems f r).map ((lo, lo) :: ·)
+
+/-- `[` members `]` ↦ the ranges of the class -/
+def parseRow : Bytes → Option (List (Nat × Nat))
+  | 91 :: r => if r.getLast? = some 93 then parseItems r.length r.dropLast else Option.none
   | _ => Option.none
 
 def rowName (b : Bytes) : String := String.ofList (b.map fun x => Char.ofNat x.toNat)
 
-/-- Every row of `ublock2urange` but the last is `[\x{LO}-\x{HI}]` of exactly `URANGE_LEN` bytes where LO–HI is the
-    (first) range XML Schema Part 2 §F.1.1 gives for the block of that name, and the only range for every block but
-    `PrivateUse` (whose planes 15/16 parts the table lacks) — so the *repaired* substitution yields the XSD block.
-    The last row, `Specials`, is longer than `URANGE_LEN` (F187: it would be cut). -/
+/-- Every row of `ublock2urange` is a PCRE2 class `[…]` whose members are exactly the code point ranges XML Schema Part 2
+    §F.1.1 gives for the block of that name — one range `\x{LO}-\x{HI}` for most, the single character and the range
+    `\x{FEFF}\x{FFF0}-\x{FFFD}` for `Specials` (fixes/F187.diff; the row used to contain a literal `|`) — with one exception:
+    of `PrivateUse` the table has the first range only (the planes 15/16 parts are missing).  And the substitution copies a
+    row in its own length (`lenFromRow`, read from the memcpy / memmove calls of the source), so the *repaired*
+    substitution yields the XSD block. -/
 theorem ublock_rows_match_xsd :
-    (∀ row ∈ ublocks.dropLast,
-      row.2.length = Generated.UBlocks.URANGE_LEN ∧
-      (parseRow row.2).map (fun r => [r]) = (Unicode.blockRanges (rowName row.1)).map (fun rs => rs.take 1) ∧
-      (rowName row.1 ≠ "PrivateUse" → (Unicode.blockRanges (rowName row.1)).map List.length = some 1)) ∧
-    (ublocks.getLast?.map fun row => (rowName row.1, decide (row.2.length > Generated.UBlocks.URANGE_LEN))) = some ("Specials", true) := by
+    (∀ row ∈ ublocks,
+      (parseRow row.2).isSome = true ∧
+      (rowName row.1 ≠ "PrivateUse" → parseRow row.2 = Unicode.blockRanges (rowName row.1)) ∧
+      (rowName row.1 = "PrivateUse" → parseRow row.2 = (Unicode.blockRanges (rowName row.1)).map (fun rs => rs.take 1))) ∧
+    Generated.UBlocks.lenFromRow = true := by
   decide +kernel
 
-/-- non-vacuity (audit): the bounded quantifier ranges over 83 rows, and the `Option` equation of the one row exempted from
-the single-range clause (`PrivateUse`, row 74) is `some = some`, not `none = none` -/
-example : ublocks.dropLast.length = 83 ∧ (ublocks.getD 74 ([], [])).1 = [80, 114, 105, 118, 97, 116, 101, 85, 115, 101] ∧
-    parseRow (ublocks.getD 74 ([], [])).2 = some (0xE000, 0xF8FF) := by decide +kernel
+/-- non-vacuity (audit): the bounded quantifier ranges over 84 rows; the row exempted from the all-ranges clause is row 74
+(`some = some`, not `none = none`), and the two-range row is the last one -/
+example : ublocks.length = 84 ∧ (ublocks.getD 74 ([], [])).1 = [80, 114, 105, 118, 97, 116, 101, 85, 115, 101] ∧
+    parseRow (ublocks.getD 74 ([], [])).2 = some [(0xE000, 0xF8FF)] ∧
+    (ublocks.getLast?.map fun row => (rowName row.1, parseRow row.2)) = some ("Specials", some [(0xFEFF, 0xFEFF), (0xFFF0, 0xFFFD)]) := by
+  decide +kernel
 example : (Unicode.blockRanges "PrivateUse").map (fun rs => rs.take 1) = some [(0xE000, 0xF8FF)] := by decide +kernel
+
+/-- **False of the table as it was** (F187): the `Specials` row `[\x{FEFF}|\x{FFF0}-\x{FFFD}]` is not a class of `\x{…}` members
+    (the `|` is a literal member: the block would match `|`), and it is longer than the 19 bytes that were copied. -/
+theorem ublock_rows_match_xsd_fails : parseRow specialsRowWas.2 = Option.none ∧ specialsRowWas.2.length > 19 := by decide
 
 /-- the needle cannot be re-created by a replacement: no range text contains `\p{Is`, starts with `p`, `{`, `I`, `s` or ends
     with `\`, `p`, `{`, `I` (the facts the termination argument of the `while` loop rests on) -/
@@ -471,12 +638,22 @@ theorem ublock_rows_do_not_recreate_needle :
   decide +kernel
 
 /-- **Termination of the substitution loop** (`while ((ptr = strstr(perl_regex, "\\p{Is")))`): on the table as it is in the
-    source now the model's fuel is sufficient for every input and every repair state — a round removes the first occurrence of
+    source now, copied in the rows' own lengths (the length rule of the source now), the model's fuel is sufficient for every
+    input and every state of the other repairs — a round removes the first occurrence of
     the needle and creates none before the unprocessed tail (`no_occ_before_tail`: every text a row can contribute contains no
     needle, does not begin with `p { I s` and does not end with `\ p { I`), so the length of the text from the first
     occurrence on strictly decreases (`mu_decreases`). -/
-theorem chblocks_terminates (fx : Fixes) (t : Bytes) : chblocks fx t ≠ .error .fuel :=
-  chblocks_fuel_sufficient fx t
+theorem chblocks_terminates (fx : Fixes) (h187 : fx.f187 = true) (t : Bytes) : chblocks fx t ≠ .error .fuel :=
+  chblocks_fuel_sufficient fx h187 t
+
+/-- the same for any table, any `URANGE_LEN` and either length rule, provided the texts the rows can contribute are `good`
+    (in particular for the code before fixes/F187.diff: its table with `URANGE_LEN` 19, see the example) -/
+theorem chblocks_terminates_any_table (fx : Fixes) (tbl : List (Bytes × Bytes)) (ulen : Nat) (hT : GoodTable tbl ulen fx.f187)
+    (t : Bytes) : chblocksLoop fx tbl ulen (t.length + 1) t ≠ .error .fuel :=
+  chblocksLoop_fuel fx tbl ulen hT (t.length + 1) t (by have := mu_le_length t; omega)
+
+/-- non-vacuity: the hypothesis holds for the one row that was not 19 bytes long, as it was, with the constant length 19 -/
+example : GoodTable [specialsRowWas] 19 false := by unfold GoodTable; decide
 
 /-- non-vacuity (audit): the conclusion is not a triviality of the model — with one round of fuel less than the loop
 needs it does report `.fuel`; `\p{IsGreek}[\p{IsThai}]` takes two rounds and a final look -/
@@ -487,18 +664,18 @@ example : chblocksLoop Fixes.all ublocks 19 2 [92, 112, 123, 73, 115, 71, 114, 1
         48, 48, 125, 45, 92, 120, 123, 48, 69, 55, 70, 125, 93] := by decide
 
 /-- the whole rewrite is total: its only outcomes are a text, one of the three diagnostics, or (code as it is) the crash -/
-theorem rewrite_never_out_of_fuel (fx : Fixes) (p : Bytes) : rewriteWith fx p ≠ .error .fuel := by
+theorem rewrite_never_out_of_fuel (fx : Fixes) (h187 : fx.f187 = true) (p : Bytes) : rewriteWith fx p ≠ .error .fuel := by
   unfold rewriteWith
   split
   · rename_i e he
     have := (rewrite_rejects_stray_bracket fx (cstr p)).2 e he
     subst this
     intro h; cases h
-  · exact chblocks_fuel_sufficient fx _
+  · exact chblocks_fuel_sufficient fx h187 _
 
 -- non-vacuity: three block escapes, three rounds
-example : rewrite [92, 112, 123, 73, 115, 71, 114, 101, 101, 107, 125, 91, 92, 112, 123, 73, 115, 71, 114, 101, 101, 107, 125, 93,
-    92, 112, 123, 73, 115, 84, 104, 97, 105, 125] ≠ .error .fuel := by decide
+example : rewriteWith Fixes.all [92, 112, 123, 73, 115, 71, 114, 101, 101, 107, 125, 91, 92, 112, 123, 73, 115, 71, 114, 101, 101, 107, 125, 93,
+    92, 112, 123, 73, 115, 84, 104, 97, 105, 125] ≠ .error .fuel := rewrite_never_out_of_fuel Fixes.all rfl _
 
 /-- Implicit anchoring at both ends, `$` only at the very end, Unicode semantics: the options the source passes to
     `pcre2_compile` / `pcre2_match` now, and none that would change the meaning of `.` `^` `$` or of letters. -/
